@@ -91,7 +91,8 @@ def features(case, vio):
             if cfg["discriminator"].get("tagger"):
                 feats.add("tagger")
         for key in ("omit_none", "omit_default", "serialize_by_alias", "sort_keys",
-                    "forbid_extra_keys", "namedtuple_as_dict", "date", "aliases"):
+                    "forbid_extra_keys", "namedtuple_as_dict", "date", "aliases",
+                    "orjson_options"):
             if cfg.get(key):
                 feats.add("cfg:" + key)
         if c.get("hooks"):
@@ -105,6 +106,8 @@ def features(case, vio):
         for f in c.get("fields", []):
             if f.get("alias"):
                 feats.add("alias")
+            if f.get("ser"):
+                feats.add("field_serialize")
             for t in _types_in(f["t"]):
                 k = t[0]
                 if k == "gen":
